@@ -92,8 +92,36 @@ def test_phase(rng, fmt, ch, F, filehex, nops, sr=8000, raw_fmt=None):
         b = 60
     if fmt.major == 0x05 and fmt.codec == 0x03:
         b = 10
-    for _ in range(nops):
+    pos = 0      # the generator's own idea of the read position (only used to aim at block boundaries)
+    k = 0
+    while k < nops:
+        k += 1
         r = rng.random()
+        if b > 1 and r < 0.12 and pos < F:
+            # read exactly up to the next block boundary, then move a little inside the block that starts there:
+            # lazily decoding readers still hold the previous block at that moment
+            n = b - pos % b
+            ty = rng.choice(TYS)
+            lines.append("r h0 %s f %d" % (ty, n))
+            pos = min(F, pos + n)
+            lines.append("seek h0 0 1")
+            if rng.random() < 0.8 and pos < F:
+                d = rng.choice([1, 2, 7, b // 2, b - 1])
+                if rng.random() < 0.5:
+                    lines.append("seek h0 %d 1" % d)
+                    tgt = pos + d
+                else:
+                    tgt = pos + d
+                    lines.append("seek h0 %d 0" % tgt)
+                if 0 <= tgt <= F:
+                    pos = tgt
+                lines.append("seek h0 0 1")
+                n2 = rng.choice([1, 3, b + 1])
+                lines.append("r h0 %s f %d" % (rng.choice(TYS), n2))
+                pos = min(F, pos + n2)
+                lines.append("seek h0 0 1")
+                k += 2
+            continue
         if r < 0.55:
             ty = rng.choice(TYS)
             unit = rng.choice("if")
@@ -103,6 +131,8 @@ def test_phase(rng, fmt, ch, F, filehex, nops, sr=8000, raw_fmt=None):
                 n = rng.choice([0, -1, -7])
             cnt = n if unit == "f" else (n * ch if rng.random() < 0.95 else n * ch + 1)
             lines.append("r h0 %s %s %d" % (ty, unit, cnt))
+            if n > 0 and (unit == "f" or cnt % ch == 0):
+                pos = min(F, pos + n)
         else:
             base = rng.choice([0, 0, 0, 1, 1, 2])
             q = rng.choice([0, 0, 0, 0x10]) if rng.random() < 0.92 else rng.choice([0x20, 0x30, 0x40, 3, 5])
@@ -113,6 +143,9 @@ def test_phase(rng, fmt, ch, F, filehex, nops, sr=8000, raw_fmt=None):
             else:
                 off = rng.choice([0, -1, -b, -(b + 1), -F, -(F // 2), 1, -(F + 1)])
             lines.append("seek h0 %d %d" % (off, base | q))
+            tgt = off if base == 0 else (pos + off if base == 1 else F + off)
+            if q in (0, 0x10) and 0 <= tgt <= F:
+                pos = tgt
         lines.append("seek h0 0 1")
     lines.append("close h0")
     return "\n".join(lines) + "\n"
